@@ -534,7 +534,13 @@ def run_history(trace, refs, stats=None):
     """One client, calls in sequence; oracle after every call."""
     out = []
     calls = trace["calls"]
-    preps = [prepare_call(c) for c in calls]
+    _cold_start()  # (argument preparation uses the library too: it must not meet what an earlier run left behind)
+    try:
+        preps = [prepare_call(c) for c in calls]
+    except Exception as exc:  # noqa: BLE001
+        # loading the corpus objects that serve as arguments is itself a history of load_one calls on intact files
+        return [_v("argument_preparation_failed", f"loading the intact corpus files that serve as arguments failed after other such loads: {type(exc).__name__}: {exc}",
+                   trace, "prepare")], [], 0
     _cold_start()
     disk = seams.SimDisk(log_events=False)
     disk.declare_missing("results")
@@ -591,7 +597,12 @@ def run_threads(trace, refs, rng=None, stats=None):
     """Several clients under the baton scheduler."""
     out = []
     clients = trace["clients"]
-    preps = [[prepare_call(c) for c in cl] for cl in clients]
+    _cold_start()
+    try:
+        preps = [[prepare_call(c) for c in cl] for cl in clients]
+    except Exception as exc:  # noqa: BLE001
+        return [_v("argument_preparation_failed", f"loading the intact corpus files that serve as arguments failed after other such loads: {type(exc).__name__}: {exc}",
+                   trace, "prepare")], [], sched.Baton(rng, ("serial",)), 0
     _cold_start()
     disk = seams.SimDisk(log_events=False)
     disk.declare_missing("results")
